@@ -539,6 +539,12 @@ def run(mon, spec):
                 offs = rng.choice(([q, q, r], [q, r, q], [r, q, q],
                                    [q, q, q]))
                 mon.cls("coincident-bodies", ("co", lon1, lat1, q, r))
+            elif k < 0.27:   # a needle that is still acute: two bodies a
+                #              hair apart, the third equidistant from both
+                dl = 10.0 ** rng.uniform(-7, -3)
+                D = rng.uniform(0.5, 4.0) * rng.choice((-1, 1))
+                offs = [(-dl / 2, 0.0), (dl / 2, 0.0), (0.0, D)]
+                mon.cls("needle-isosceles", ("needle", lon1, lat1, dl, D))
             elif k < 0.4:    # obtuse / nearly collinear
                 offs = [(0.0, 0.0), (rng.uniform(1, 4), rng.uniform(-.2, .2)),
                         (rng.uniform(0.3, 0.9), rng.uniform(-.1, .1))]
